@@ -734,9 +734,9 @@ def check_C16(tier: str, seed: int) -> int:
     spec = os.path.join(tlc.SPEC, "tables", "Layers.tla")
     #          kind      MaxX MaxW MaxS MaxD MaxP
     bounds = [("sw1", 6, 3, 3, 3, 0), ("sw2", 4, 2, 2, 2, 0), ("conv1", 6, 3, 3, 2, 2), ("conv2", 3, 2, 2, 2, 1),
-              ("pool1", 6, 3, 3, 1, 0), ("pool2", 4, 2, 2, 1, 0), ("losses", 1, 1, 1, 1, 0)] if quick else \
+              ("pool1", 6, 3, 3, 1, 0), ("pool2", 4, 2, 2, 1, 0), ("losses", 1, 1, 1, 1, 0), ("big", 1, 1, 1, 1, 0)] if quick else \
              [("sw1", 9, 4, 4, 3, 0), ("sw2", 5, 3, 2, 2, 0), ("conv1", 8, 3, 3, 3, 2), ("conv2", 4, 2, 2, 2, 1),
-              ("pool1", 9, 4, 4, 1, 0), ("pool2", 5, 3, 3, 1, 0), ("losses", 1, 1, 1, 1, 0)]
+              ("pool1", 9, 4, 4, 1, 0), ("pool2", 5, 3, 3, 1, 0), ("losses", 1, 1, 1, 1, 0), ("big", 1, 1, 1, 1, 0)]
     scratch = tempfile.mkdtemp(prefix="verif-lay-")
     results = {}
 
@@ -1093,7 +1093,7 @@ def stage_interp(out: core.Outcome, scratch: str, seen_ops=None, groups=("exp", 
 
 
 # ----------------------------------------------------------------------------- C02: every operation's VJP
-OPTABLE_GROUPS = ["binary", "unary", "reduce", "matmul", "getitem", "setitem", "whereout", "move",
+OPTABLE_GROUPS = ["binary", "unary", "wheremask", "reduce", "matmul", "getitem", "setitem", "whereout", "move",
                   "activation", "cumulative", "sequence", "einsum", "conv", "maxpool", "loss", "inplace"]
 
 
